@@ -6,9 +6,10 @@ cd $W || exit 2
 git diff -- boltons > /tmp/keepseed.diff
 [ -s /tmp/keepseed.diff ] || { echo "no change in worktree"; exit 2; }
 /venv/bin/python demo.py >/tmp/keepseed.with 2>&1; RCW=$?
-git stash -q -- boltons
+# (git stash is shared between worktrees of one repository: use the diff itself)
+git checkout -q -- boltons
 /venv/bin/python demo.py >/tmp/keepseed.without 2>&1; RCO=$?
-git stash pop -q
+git apply /tmp/keepseed.diff || { echo "could not re-apply the change"; exit 2; }
 TESTS=$(/venv/bin/python -m pytest -q -p no:cacheprovider tests 2>&1 | tail -1)
 echo "demo with change rc=$RCW, without rc=$RCO; tests: $TESTS"
 case "$TESTS" in *failed*|*error*) echo "TESTS FAIL WITH CHANGE - not kept"; exit 1;; esac
